@@ -68,7 +68,8 @@ def gen_tla(run, module, cfg):
 
 def parser_inputs(run, n_struct, n_random, n_havoc, n_adv, big=True):
     sd = vlib.seed()
-    pk = gen_tla(run, "Gen_Ptr", "Gen_Ptr.cfg")
+    pk = vlib.vdrive_gen("beyond64k", 0, 0)      # first: their bytes stay in the log (only the first large inputs do)
+    pk += gen_tla(run, "Gen_Ptr", "Gen_Ptr.cfg")
     pk += vlib.vdrive_gen("structured", sd, n_struct)
     pk += vlib.vdrive_gen("honest", sd + 1, n_struct // 4)
     pk += vlib.vdrive_gen("random", sd + 2, n_random)
